@@ -22,6 +22,28 @@ fn spans_of<T: Spanned>(e: &T) -> Vec<[usize; 2]> {
     e.spans().iter().map(|s| [s.start(), s.end()]).collect()
 }
 
+/// One error: its message, its spans, and whether its rendering by the diagnostics formatter
+/// ("can always be rendered") shows the message.
+struct ByRef<'a, E>(&'a E);
+impl<E: std::fmt::Display> std::fmt::Display for ByRef<'_, E> {
+    fn fmt(&self, f: &mut std::fmt::Formatter<'_>) -> std::fmt::Result {
+        self.0.fmt(f)
+    }
+}
+impl<E: Spanned> Spanned for ByRef<'_, E> {
+    fn spans(&self) -> &[cfgrammar::Span] {
+        self.0.spans()
+    }
+    fn spanskind(&self) -> cfgrammar::yacc::parser::SpansKind {
+        self.0.spanskind()
+    }
+}
+fn errj<E: Spanned + std::fmt::Display>(src: &str, e: &E) -> Value {
+    let fmt = SpannedDiagnosticFormatter::new(src, std::path::Path::new("x.y"));
+    let shown = fmt.format_warning(ByRef(e)).contains(&e.to_string());
+    json!({"kind": e.to_string(), "spans": spans_of(e), "shown": shown})
+}
+
 fn cps(s: &str) -> Vec<u32> {
     s.chars().map(|c| c as u32).collect()
 }
@@ -141,16 +163,16 @@ fn one(entry: &str, s: &str) -> Value {
     let r = catch(|| match entry {
         "header" => match GrmtoolsSectionParser::new(s, false).parse() {
             Ok((hdr, pos)) => json!({"class": "ok", "pos": pos, "errors": [], "warnings": [], "entries": header_entries(&hdr)}),
-            Err(es) => json!({"class": "err", "errors": es.iter().map(|e| json!({"kind": e.to_string(), "spans": spans_of(e)})).collect::<Vec<_>>()}),
+            Err(es) => json!({"class": "err", "errors": es.iter().map(|e| errj(s, e)).collect::<Vec<_>>()}),
         },
         "lex" => match LRNonStreamingLexerDef::<DefaultLexerTypes<u32>>::from_str(s) {
             Ok(def) => json!({"class": "ok", "errors": [], "warnings": [], "def": crate::lex::def_json(&def)}),
-            Err(es) => json!({"class": "err", "errors": es.iter().map(|e| json!({"kind": e.to_string(), "spans": spans_of(e)})).collect::<Vec<_>>()}),
+            Err(es) => json!({"class": "err", "errors": es.iter().map(|e| errj(s, e)).collect::<Vec<_>>()}),
         },
         // the same text through the other public entry point (flags given by the caller)
         "lex_opts" => match LRNonStreamingLexerDef::<DefaultLexerTypes<u32>>::new_with_options(s, lrlex::DEFAULT_LEX_FLAGS) {
             Ok(_) => json!({"class": "ok", "errors": [], "warnings": []}),
-            Err(es) => json!({"class": "err", "errors": es.iter().map(|e| json!({"kind": e.to_string(), "spans": spans_of(e)})).collect::<Vec<_>>()}),
+            Err(es) => json!({"class": "err", "errors": es.iter().map(|e| errj(s, e)).collect::<Vec<_>>()}),
         },
         k if k.starts_with("yast_") => {
             // the Yacc parser on its own: the AST it builds and the errors of parsing + validation
@@ -165,7 +187,7 @@ fn one(entry: &str, s: &str) -> Value {
                 json!({"built": false})
             };
             json!({"class": if astv.is_valid() { "ok" } else { "err" }, "ast": ast_json(astv.ast()), "grm": grm,
-                   "errors": astv.errors().iter().map(|e| json!({"kind": e.to_string(), "spans": spans_of(e)})).collect::<Vec<_>>(), "warnings": []})
+                   "errors": astv.errors().iter().map(|e| errj(s, e)).collect::<Vec<_>>(), "warnings": []})
         }
         k => {
             let astv = ASTWithValidityInfo::new(yacckind(&k[5..]), s);
@@ -178,7 +200,7 @@ fn one(entry: &str, s: &str) -> Value {
                     for e in &es {
                         let _ = fmt.format_error(e.clone()).to_string();
                     }
-                    json!({"class": "err", "errors": es.iter().map(|e| json!({"kind": e.to_string(), "spans": spans_of(e)})).collect::<Vec<_>>(), "warnings": warnings})
+                    json!({"class": "err", "errors": es.iter().map(|e| errj(s, e)).collect::<Vec<_>>(), "warnings": warnings})
                 }
             }
         }
